@@ -451,7 +451,7 @@ def execute(case):
 
 def base_specs(tier, seed):
     specs = [{"src": "fixture", "name": n} for n in files.fixture_names()]
-    n = 30 if tier == "quick" else 600
+    n = 30 if tier == "quick" else 300
     specs += [{"src": "gen", "seed": seeds.derive(seed, "c05gen", i) % (1 << 31), "nest": i % 3 == 0, "n": 20, "layout": 2} for i in range(n)]
     return specs
 
@@ -513,7 +513,7 @@ def plan(tier, seed):
     legacy = [{"src": "fixture", "name": "sampler.sunsynth", "perturb": [["sampler_legacy", 0, v]]} for v in range(6)]
     units.append({"kind": "plain", "specs": legacy, "next": specs[0], "seed": seed, "tier": tier, "perturbed": True})
     units.append({"kind": "built_synths", "seed": seed, "tier": tier})
-    for j in range(4 if tier == "quick" else 40):
+    for j in range(4 if tier == "quick" else 20):
         units.append({"kind": "built_nested", "seed": seeds.derive(seed, "bn", j) % (1 << 30), "tier": tier, "inner": j % 2 == 1})
     n = 5000 if tier == "quick" else 120000
     chunk = 100
